@@ -62,13 +62,16 @@ def bfg_text(decls, header=''):
     L = ["project('p', version='1.0')", "R = %r" % REC]
     if header:
         L.append(header)
+    if any(d.get('vlib') for d in decls):
+        L.append("v1 = static_library('libv1.a')")
     for d in decls:
         k, n = d['kind'], d['name']
         if k in ('exe', 'slib', 'shlib', 'dlib'):
             fn = {'exe': 'executable', 'slib': 'static_library',
                   'shlib': 'shared_library', 'dlib': 'library'}[k]
             srcs = '[' + ', '.join(ref_expr(r, decls) for r in d['srcs']) + ']'
-            libs = '[' + ', '.join(d['libs']) + ']'
+            libs = '[' + ', '.join(d['libs'] + (
+                ['v1'] if d.get('vlib') else [])) + ']'
             incs = ''
             inc_items = [r['t'] + '[1]' for r in d['ins']]
             if d.get('hdr'):
@@ -142,6 +145,8 @@ def source_files(decls=()):
     for d in decls:
         if d.get('pch'):
             f['pch_%s.h' % d['name']] = '#define PCH_%s 1\n' % d['name']
+        if d.get('vlib'):
+            f['libv1.a'] = '!<arch>\n'
     return f
 
 
@@ -256,7 +261,7 @@ class Runner:
     def touch(self, f='', t=''):
         self.p.tick()
         if f:
-            path = os.path.join(self.p.src, f + (
+            path = os.path.join(self.p.src, 'libv1.a' if f == 'v1' else f + (
                 '.txt' if f == 'd1' else
                 '.h' if f in ('h1', 'h2') or f.startswith('pch_') else '.c'))
         else:
